@@ -229,7 +229,7 @@ def law_iin(node, phase, vin, iout, mode=0):
 # --------------------------------------------------------------------------------------
 # Liveness / mux selection / domain, from the spec alone
 # --------------------------------------------------------------------------------------
-def live_map(spec, phase):
+def live_map(spec, phase, vin_of=None):
     """name -> True iff the component *outputs* a live (non-zero) rail in `phase`, by the
     documented rule: a node is dead iff its supply is dead; sources are dead when 0 V or
     inactive; converters/regulators/switches/mux output nothing when inactive; a mux is
@@ -261,15 +261,21 @@ def live_map(spec, phase):
         elif k in ("Converter", "LinReg", "PSwitch", "PMux"):
             out[n["name"]] = S.active_in(n, phase) and (
                 k != "Converter" or n["params"]["vo"] != 0.0)
+            if k == "LinReg" and out[n["name"]] and vin_of is not None:
+                # a regulator whose input does not exceed its dropout voltage outputs 0 V
+                # (vin_of: observed input voltage, the only way to know)
+                v = vin_of(n["name"])
+                if v is not None and abs(v) <= abs(n["params"].get("vdrop", 0.0)):
+                    out[n["name"]] = False
         else:
             out[n["name"]] = True
     return powered, out, sel
 
 
-def supplier_map(spec, phase):
+def supplier_map(spec, phase, vin_of=None):
     """name -> name of the component that supplies it in `phase` (mux: selected input,
     or its first declared input when none is live); Sources -> None."""
-    _p, _o, sel = live_map(spec, phase)
+    _p, _o, sel = live_map(spec, phase, vin_of)
     sup = {}
     for n in spec["nodes"]:
         if n["kind"] == "Source":
@@ -282,9 +288,9 @@ def supplier_map(spec, phase):
     return sup, sel
 
 
-def domain_map(spec, phase):
+def domain_map(spec, phase, vin_of=None):
     """name -> root Source actually powering it (following the mux's selected input)."""
-    sup, _sel = supplier_map(spec, phase)
+    sup, _sel = supplier_map(spec, phase, vin_of)
     dom = {}
     for n in spec["nodes"]:
         if n["kind"] == "Source":
